@@ -23,7 +23,8 @@ ASSUMPTIONS = [
 ]
 
 UTC = _d.timezone.utc
-NAMES = ["a", "b", "c", "x", "ts", "ts_description"]
+NAMES = ["a", "b", "c", "x", "ts", "ts_description", "name"]
+GROUPED_ATTRS = {"name", "records", "descriptors", "flat_fields"}
 TYPES = ["string", "varint", "datetime", "boolean", "stringlist", "datetime"]
 GEN = _d.datetime(2019, 9, 9, 9, 9, 9, tzinfo=UTC)
 
@@ -213,7 +214,8 @@ def check(case, ctx):
         for n, t, i in ref:
             if observe(getattr(g, n)) != observe(getattr(recs[i], n)):
                 raise Violation("grouped/first-member-wins", "field %s: %r, expected member %d's %r"
-                                % (n, getattr(g, n), i, getattr(recs[i], n)))
+                                % (n, getattr(g, n), i, getattr(recs[i], n)),
+                                detail="shadowed-by-grouped-attribute" if n in GROUPED_ATTRS else "field")
         if [observe(r) for r in g.records] != before[: len(g.records)]:
             raise Violation("grouped/members", "members changed or reordered")
         ad = list(g._asdict().keys())
